@@ -1732,6 +1732,14 @@ Lemma witness_mixed_readerid :
     Ok (s, obs) /\ r_changes (s_r s) = [(1, firstn 16 p29)] /\ firstn 16 p29 <> p29.
 Proof. eexists. eexists. vm_compute. split; [reflexivity|]. split; [reflexivity|discriminate]. Qed.
 
+(* two readers of one participant, 2 fragments: both copies of fragment 2, then both copies of
+   fragment 1 — everything arrived, nothing is reassembled (count 4 <> 2), and the heartbeat reply
+   panics because no fragment number is missing *)
+Lemma witness_none_missing_panic :
+  run (s_init true 2 8) [OWrite [1;2;3;4;5;6;7;8;9]; ODeliver 1 1 1; ODeliver 1 1 2; ODeliver 1 0 1; ODeliver 1 0 2;
+                         OHb 1 1 1 false] = Panic 4.
+Proof. vm_compute. reflexivity. Qed.
+
 (* non-vacuity of the positive theorems: a concrete interleaved, duplicated, reordered schedule *)
 Lemma example_reordered :
   exists s obs, run (s_init true 1 8)
